@@ -50,7 +50,7 @@ pub fn exec(root: &str, cwd_rel: &str, args: &[String], stdin: &str, detrand: u6
         env.push(("SIM_PLAN".into(), plan_string(plan)));
     }
     let t_dbg = std::time::Instant::now();
-    let out = proc::run(RunSpec { exe: proc::ASCA_BIN, args: args.to_vec(), cwd: Some(&cwd), env, stdin: stdin.as_bytes().to_vec(), timeout_ms: INV_TIMEOUT_MS })
+    let out = proc::run(RunSpec { exe: &proc::asca_bin(), args: args.to_vec(), cwd: Some(&cwd), env, stdin: stdin.as_bytes().to_vec(), timeout_ms: INV_TIMEOUT_MS })
         .unwrap_or_else(|e| harness_error(&format!("spawn asca: {e}")));
     if t_dbg.elapsed().as_millis() > 1500 && std::env::var("VERIF_DEBUG").is_ok() {
         eprintln!("DEBUG slow invocation {} ms: {:?} plan {:?} in {}", t_dbg.elapsed().as_millis(), args, plan, cwd);
